@@ -13,7 +13,7 @@ import z3
 
 from contracts.C09 import node_obj
 from contracts import C13
-from contracts.C13 import F, G, PI, R, V_fr, V_sphere
+from contracts.C13 import F, G, PI, R, V_fr, V_sf, V_sphere, sf_split, zmin
 from contracts.common import col, nof, sym_tree
 from pyvc.lemmas import lemma as _lemma, use as _use
 from pyvc.spec import Registry
@@ -26,29 +26,9 @@ DEPENDS = ["C13"]
 
 # ---------------------------------------------------------------------------
 # spec functions (on top of C13's F, G, V_sphere, V_fr)
-def zmin(a, b):
-    return z3.If(a <= b, a, b)
-
-
 def V_fr_tot(r1, r2, h):
     """frustum of height h >= 0 (a degenerate frustum, h = 0, has volume 0)"""
     return z3.If(h > 0, V_fr(r1, r2, h), z3.RealVal(0))
-
-
-def sf_split(r1, r2, h):
-    """sphere (radius r1, centred on the frustum end of radius r1) against the frustum profile rho_F(z) = r1 + (r2 - r1) z / h:
-    the frustum profile is the smaller one on [0, m], the sphere profile on [m, min(h, r1)]
-    (m = 0 if the frustum does not taper; else the crossing z* = 2 r1 (r1 - r2) h / (h^2 + (r1 - r2)^2), cut at h).
-    Justified by lemma `sf-split-point-is-the-profile-crossing`."""
-    zs = 2 * r1 * (r1 - r2) * h / (h * h + (r1 - r2) * (r1 - r2))
-    return z3.If(r2 >= r1, z3.RealVal(0), zmin(zs, h))
-
-
-def V_sf(r1, r2, h):
-    """volume of sphere ∩ frustum sharing centre and end radius r1 = pi * integral over [0, min(h, r1)] of min(rho_S, rho_F)^2"""
-    m = sf_split(r1, r2, h)
-    top = zmin(h, r1)
-    return PI * (G(r1, r2, h, m) - G(r1, r2, h, 0)) + PI * (F(r1, top) - F(r1, m))
 
 
 # VSF is V_sf behind an opaque name: callers (leave) reason with the NAME only (linear arithmetic over atoms); the defining
